@@ -8,6 +8,7 @@ import (
 	"time"
 
 	"github.com/cbeuw/Cloak/internal/server"
+	"github.com/cbeuw/Cloak/internal/server/usermanager"
 	"github.com/cbeuw/Cloak/internal/simsync"
 	"github.com/cbeuw/Cloak/verifsim/simnet"
 )
@@ -20,6 +21,10 @@ type C15User struct {
 	DownCredit int64 `json:"down_credit"`
 	ExpiryS    int64 `json:"expiry_s"` // seconds relative to the server clock at start (negative: already expired)
 	Pinned     bool  `json:"pinned"`   // one session is established first and stays for the whole run
+	// AdminZero: once the pinned session stands, the administrator sets the
+	// user's upload (1) or download (2) credit to zero through the manager; the
+	// user stays active until the next upload, but must not start a new session
+	AdminZero int `json:"admin_zero,omitempty"`
 }
 
 type C15Client struct {
@@ -54,6 +59,9 @@ func genC15(g *Gen) any {
 			usr.ExpiryS = int64(g.Pick(-1, -3600, -86400))
 		case 3:
 			usr.ExpiryS = int64(g.Pick(5, 30, 50))
+		}
+		if usr.Pinned && usr.UpCredit > 0 && usr.DownCredit > 0 && usr.ExpiryS > 1000 && g.Bool(0.3) {
+			usr.AdminZero = g.Int(1, 2)
 		}
 		sc.Users = append(sc.Users, usr)
 	}
@@ -196,6 +204,24 @@ func runC15(c *Ctx, scAny any) {
 		if p != nil && p.err != nil {
 			c.Fail("admission", "pinned-refused", "user %d (cap %d, credit, not expired): first session refused: %v", u, sc.Users[u].Cap, p.err)
 			return
+		}
+	}
+	// credit withdrawn through the admin interface while the user is active
+	for u := range sc.Users {
+		if usr := sc.Users[u]; usr.AdminZero != 0 && pinned[u] != nil {
+			info := usermanager.UserInfo{UID: uids[u]}
+			if usr.AdminZero == 1 {
+				info.UpCredit = usermanager.JustInt64(0)
+				sc.Users[u].UpCredit = 0
+			} else {
+				info.DownCredit = usermanager.JustInt64(0)
+				sc.Users[u].DownCredit = 0
+			}
+			if err := w.Mgr.WriteUserInfo(info); err != nil {
+				c.Fail("setup", "db", "%v", err)
+				return
+			}
+			c.Probe("credit_withdrawn_while_active")
 		}
 	}
 	// phase 1: the burst
